@@ -71,6 +71,11 @@ var (
 
 const lineSuffix = " INFO [main] request served in 35 ms"
 
+// a rest of the line that holds a date of `YYYY-MM-DD HH:mm:ss` (finding F-C20-901: it wins against later formats of the list)
+const laterDateSuffix = "\tsee 2018-01-01 10:00:00 for details"
+
+var laterDateInstant = time.Date(2018, 1, 1, 10, 0, 0, 0, time.UTC)
+
 // ---------------------------------------------------------------------------------------------
 // SPEC: what the format letters denote (fixed here, deliberately NOT read from date.go's terms table)
 
@@ -254,6 +259,14 @@ func (k kase) input(text string) string {
 	switch k.Surround {
 	case "line", "file":
 		return text + lineSuffix
+	case "line-tab": // an inert separator (no format's expression can consume it) + a rest without a date: C20_collector_line
+		return text + "\t" + lineSuffix[1:]
+	case "line-bar":
+		return text + "|INFO|35 ms"
+	case "line-bracket":
+		return text + "[main] x=1; took 35 ms"
+	case "line-later-date": // a date of an earlier format later in the line (finding F-C20-901)
+		return text + laterDateSuffix
 	case "padded":
 		return "  " + text + " "
 	case "lower-ampm": // the P term's expression admits am|pm
@@ -676,6 +689,11 @@ func judge(section string, k kase, listIdx int, impl, modelC, want string, byIdx
 		switch {
 		case k.Surround == "lower-ampm" && strings.Contains(strings.Join(ft.toks, ","), "P"):
 			fid, key = "F69", "lower-case am/pm"
+		case k.Surround == "line-later-date":
+			// the answer must be exactly the later date of the line, claimed by a format that comes earlier in the list
+			if tmImpl, ok := unixOf(impl); ok && tmImpl.Equal(laterDateInstant) {
+				fid, key = "F-C20-901", "a date later in the line, of a format earlier in the list"
+			}
 		case ft.zoneName && !ft.zoneNum && zoneTrue[k.I.ZName] != 0:
 			fid, key = "F72", "zone abbreviation unknown to the process's local zone"
 		case !ft.hasYear() && !ft.noDate() && k.I.Mo > curToday.m:
@@ -886,6 +904,27 @@ func sweepCases(list []string, rng *vh.Rng, nRandom int, surrounds []string) []k
 				kk := k
 				kk.Surround = "lower-ampm"
 				all = append(all, kk)
+			}
+			if len(surrounds) > 1 { // the collector sweep: other line contexts on a share of the cases
+				switch len(seen) % 4 {
+				case 0:
+					kk := k
+					kk.Surround = "line-tab"
+					all = append(all, kk)
+				case 1:
+					kk := k
+					kk.Surround = "line-bar"
+					all = append(all, kk)
+				case 2:
+					kk := k
+					kk.Surround = "line-bracket"
+					all = append(all, kk)
+				}
+				if len(seen) == 1 {
+					kk := k
+					kk.Surround = "line-later-date"
+					all = append(all, kk)
+				}
 			}
 		}
 	}
@@ -2482,5 +2521,6 @@ func main() {
 	sectionMutated(rng.Fork("mutated"))
 	sectionInteger(rng.Fork("integer"))
 	sectionRelative(rng.Fork("relative"))
+	sectionFloatModel(rng.Fork("floatmodel"))
 	res.Write(args.Out)
 }
